@@ -328,6 +328,11 @@ pub fn targeted() -> Vec<String> {
         v.push(format!("---\n{}\n---\nMix.\n", seq.join("\n")));
         v.push(format!("---\n{}\n---\n{arrows}Mix.\n", seq[0]));
     }
+    // a byte order mark in front of every kind of diagnostic and of a text-mode component (offsets against the file as given)
+    for t in [">> título: Paella\n\nAñadir @sal{1%g} y remover.\n", "@{}\n", "~{} later é.\n", ">> [mode]: text\nAñadir @sal{1%g} y #olla{}(é).\n", "---\ntime: soon\n---\nAñadir @&sal{}.\n", "= é = x\n@a{1/0}\n"] {
+        v.push(format!("{}{t}", "\u{feff}"));
+        v.push(format!("{}\n{t}", "\u{feff}"));
+    }
     // empty servings list; more than 7 labels in one diagnostic (one label per `>>` entry)
     v.push("---\nservings: []\n---\nMix @flour{200%g} and @water{1%l}.\n".to_string());
     v.push(">> servings: \n@a{1}".to_string());
@@ -531,11 +536,103 @@ fn miri_slice(ctx: &mut Ctx, ps: &mut Parsers) {
     }
 }
 
+/// Arithmetic overflow that does not trap (a truncating or saturating cast, a wrapping operation) leaves no panic to
+/// catch; it is visible as a value that cannot be right. Probes at the 32-bit boundary with the obvious oracle: a number
+/// that does not fit `u32` is not reported as some other `u32`, an amount at or above 2^32 keeps its size through
+/// scaling, fitting, converting and grouping.
+fn overflow_probes(ctx: &mut Ctx, ps: &mut Parsers) {
+    let all = Extensions::all().bits();
+    for n in [4294967296u64, 4294967298, 4294967356, 8589934592, 9007199254740993, 18446744073709551615] {
+        for (key, which) in [("servings", 0), ("serves", 0), ("yield", 0), ("time", 1), ("prep time", 1), ("cook time", 1), ("duration", 1)] {
+            for input in [format!("---\n{key}: {n}\n---\nAdd @flour{{100%g}}.\n"), format!("---\n{key}: [{n}, 2]\n---\nAdd @flour{{100%g}}.\n"), format!(">> {key}: {n}\nAdd @flour{{100%g}}.\n"), format!("---\n{key}: {n}m\n---\n"), format!("---\n{key}: {n} min\n---\n")] {
+                for conv in ["bundled", "empty"] {
+                    let case = Case::new("overflow_probe", input.as_str(), all, conv);
+                    ctx.begin(&case);
+                    let parser = ps.parser(all, conv).clone();
+                    let res = crate::core::guarded(|| {
+                        let r = parser.parse(&input);
+                        r.output().map(|o| (o.metadata.servings(), o.servings().map(|s| s.to_vec()), o.metadata.time(parser.converter()).map(|t| t.total())))
+                    });
+                    match res {
+                        Err(p) => ctx.panic_violation(&case, "parse+accessors", p),
+                        Ok(None) => {}
+                        Ok(Some((ms, rs, t))) => {
+                            let small_servings = which == 0 && (ms.is_some() || rs.is_some());
+                            let small_time = which == 1 && t.is_some() && key != "duration";
+                            if small_servings || small_time {
+                                ctx.violation(&case, "overflow", "number_beyond_u32_reported_as_another_number", format!("{key}: {n} does not fit 32 bits, yet servings {ms:?} / recipe servings {rs:?} / minutes {t:?}"));
+                            } else {
+                                ctx.count("overflow_probes_metadata_ok");
+                                ctx.nontrivial(&case);
+                            }
+                        }
+                    }
+                }
+            }
+        }
+    }
+    // amounts at and beyond 2^32, written or reached by scaling, in units of every system
+    let conv = cooklang::Converter::bundled();
+    for (amount, unit, factor) in [(5000000000.3f64, "lb", 1.0f64), (2500000000.25, "lb", 2.0), (4294967295.5, "cup", 1.0), (4294967296.5, "oz", 1.0), (1.5, "lb", 3000000001.0), (4294967295.75, "in", 1.0), (6000000000.5, "tsp", 1.0), (4294967296.5, "g", 1.0), (4294967297.25, "kg", 3.0), (9e15, "ft", 1.0)] {
+        let input = format!("Add @flour{{{amount}%{unit}}} and @&flour{{1%{unit}}}.");
+        let case = Case::new("overflow_probe", input.as_str(), all, "bundled").with(serde_json::json!({"factor": factor}));
+        ctx.begin(&case);
+        let parser = ps.parser(all, "bundled").clone();
+        let Some(def) = crate::units::def_of(&conv, unit) else { continue };
+        let want = def.to_base(amount * factor);
+        let res = crate::core::guarded(|| {
+            let Some(rec) = parser.parse(&input).into_output() else { return Vec::new() };
+            let scaled = rec.scale(factor, &conv);
+            let mut seen: Vec<(String, Option<cooklang::ScaledQuantity>)> = vec![("scale".into(), scaled.ingredients[0].quantity.clone())];
+            let mut fitted = scaled.ingredients[0].quantity.clone();
+            if let Some(q) = fitted.as_mut() {
+                let _ = q.fit(&conv);
+            }
+            seen.push(("scale+fit".into(), fitted));
+            for sys in [cooklang::convert::System::Metric, cooklang::convert::System::Imperial] {
+                let mut c = scaled.ingredients[0].quantity.clone();
+                if let Some(q) = c.as_mut() {
+                    let _ = q.convert(sys, &conv);
+                }
+                seen.push((format!("scale+convert({sys:?})"), c));
+            }
+            seen
+        });
+        match res {
+            Err(p) => ctx.panic_violation(&case, "scale/fit/convert", p),
+            Ok(seen) => {
+                let mut ok = !seen.is_empty();
+                for (what, q) in seen {
+                    let got = q.as_ref().and_then(|q| {
+                        let v = match q.value() {
+                            cooklang::Value::Number(n) => n.value(),
+                            _ => return None,
+                        };
+                        crate::units::def_of(&conv, q.unit()?).map(|d| d.to_base(v))
+                    });
+                    if !matches!(got, Some(g) if crate::units::close(g, want, 1e-6, 0.0)) {
+                        ok = false;
+                        ctx.violation(&case, "overflow", "amount_beyond_u32_changes_size", format!("{amount} {unit} x {factor} after {what}: {:?} (base amount {got:?}, expected {want})", q.map(|q| q.to_string())));
+                        break;
+                    }
+                }
+                if ok {
+                    ctx.count("overflow_probes_amounts_ok");
+                    ctx.nontrivial(&case);
+                }
+            }
+        }
+    }
+}
+
 pub fn run(ctx: &mut Ctx) {
     let mut ps = Parsers::new();
     if std::env::var("VERIF_MIRI").is_ok() {
         miri_slice(ctx, &mut ps);
         return;
+    }
+    if ctx.shard == 0 {
+        overflow_probes(ctx, &mut ps);
     }
     consumer_family(ctx, &mut ps);
     // targeted family under four configs
